@@ -157,12 +157,14 @@ pub struct TypeEntry {
     pub run_swap: RunFn,
     /// C03: the same driver over a native account (`impl UnsizedTypeDataAccess for AccountInfo`)
     pub run_acct: RunFn,
+    /// C03: swap cases on two accounts serialized back to back in one runtime input
+    pub run_swap_acct: RunFn,
 }
 
 fn entry<T: Node + ?Sized>(id: &'static str, rust: &'static str) -> TypeEntry {
     let shape = T::shape();
     let shape_s = shape.print();
-    TypeEntry { id, rust, shape, shape_s, run: run_case::<T, crate::access::Access>, run_swap: run_swap_case::<T>, run_acct: run_case::<T, crate::access::AcctBacking> }
+    TypeEntry { id, rust, shape, shape_s, run: run_case::<T, crate::access::Access>, run_swap: run_swap_case::<T, crate::access::Access>, run_acct: run_case::<T, crate::access::AcctBacking>, run_swap_acct: run_swap_case::<T, crate::access::AcctBacking> }
 }
 
 macro_rules! reg {
